@@ -16,7 +16,11 @@ def make_workload(rng: random.Random):
     """A small multi-rank application state, described by plain data so that it can be rebuilt (and replayed)."""
     W = rng.choice([1, 2, 2, 3, 3, 4])
     wl = {"W": W, "batching": rng.random() < 0.5, "chunk": rng.choice([None, 16, 64]),
-          "replicated": rng.random() < 0.6, "ranks": [], "conc": rng.choice([None, None, 1, 1, 2])}
+          "replicated": rng.random() < 0.6, "ranks": [], "conc": rng.choice([None, None, 1, 1, 2]),
+          # a tight per-rank memory budget makes staging overlap storage I/O (requests are admitted one or two at a time:
+          # a write can fail while later requests are still to be staged); a small slab threshold lets some tensors
+          # bypass the batcher although batching is on
+          "budget": rng.choice([None, None, 16, 64]), "slab": rng.choice([None, None, 8, 24])}
     for r in range(W):
         n_priv = rng.randint(1, 3) if rng.random() < 0.7 else rng.randint(4, 7)
         wl["ranks"].append({"priv": [rng.randint(1, 9) for _ in range(n_priv)], "extra_key": rng.random() < 0.3,
@@ -65,7 +69,9 @@ class Env:
 
     def __enter__(self):
         env = {"TORCHSNAPSHOT_DISABLE_BATCHING": "1" if not self.wl["batching"] else "0",
-               "TORCHSNAPSHOT_PER_RANK_MEMORY_BUDGET_BYTES": "100000000"}
+               "TORCHSNAPSHOT_PER_RANK_MEMORY_BUDGET_BYTES": str(self.wl.get("budget") or 100000000)}
+        if self.wl.get("slab"):
+            env["TORCHSNAPSHOT_SLAB_SIZE_THRESHOLD_BYTES_OVERRIDE"] = str(self.wl["slab"])
         if self.wl["chunk"]:
             env["TORCHSNAPSHOT_MAX_CHUNK_SIZE_BYTES_OVERRIDE"] = str(self.wl["chunk"])
         if self.wl.get("conc"):
@@ -83,7 +89,7 @@ class Env:
                 os.environ.pop(k, None)
             else:
                 os.environ[k] = v
-        for k in ("TORCHSNAPSHOT_MAX_CHUNK_SIZE_BYTES_OVERRIDE", "TORCHSNAPSHOT_MAX_PER_RANK_IO_CONCURRENCY_OVERRIDE"):
+        for k in ("TORCHSNAPSHOT_MAX_CHUNK_SIZE_BYTES_OVERRIDE", "TORCHSNAPSHOT_MAX_PER_RANK_IO_CONCURRENCY_OVERRIDE", "TORCHSNAPSHOT_SLAB_SIZE_THRESHOLD_BYTES_OVERRIDE"):
             if not self.saved.get(k):
                 os.environ.pop(k, None)
 
@@ -127,7 +133,9 @@ def run_take(wl, path, mode, sched, seed=0, write_policy=None):
         if mode == "sync":
             Snapshot.take(path, st, replicated=repl)
         else:
-            Snapshot.async_take(path, st, replicated=repl).wait()
+            pending = Snapshot.async_take(path, st, replicated=repl)
+            world.event("async_take_returned")
+            pending.wait()
         world.event("returned")
         try:
             Snapshot(path).metadata
@@ -139,6 +147,13 @@ def run_take(wl, path, mode, sched, seed=0, write_policy=None):
     with Env(wl):
         world.run(fn)
     return world
+
+
+def foreground_failure(world, rank) -> bool:
+    """async variant: did `rank` fail inside async_take itself (before its background thread and its barrier existed)?
+    Its peers then wait in the store barrier until the barrier timeout (30 min in the library) and raise: like the peers
+    of a failed rank in the synchronous variant they are blocked, not successful."""
+    return not any(e["kind"] == "async_take_returned" and e["rank"] == rank for e in world.events)
 
 
 def run_restore(wl, path, sched="fifo"):
